@@ -5,7 +5,7 @@ M = "sqllineage.core.models."
 MODELS = ["modeltypes", "config", "models"]
 FUNCTIONS = ["sqllineage.core.holders.SubQueryLineageHolder.get_alias_mapping_from_table_group"] + [
     (M + c + m, MODELS) for c in ("Column.", "SubQuery.", "Table.") for m in ("__eq__", "__hash__")
-]
+] + [(M + "Column." + f, MODELS + ["columns"]) for f in ("parent", "parent@setter", "to_source_columns")]
 EXPLANATION = (
     "Invariance under renaming of statement-local names needs (a) that a local name is looked up only in its own scope and "
     "(b) that the identity of graph nodes does not depend on local names in a way that merges distinct things. (a) is the "
@@ -30,9 +30,9 @@ BOUNDED = [
     }
 ]
 LEVEL_TEXT = (
-    "Proof (z3) of scope-local name resolution and of node identity (eq/hash) being independent of aliases; the end-to-end "
+    "Proof (z3) of scope-local name resolution (scope map; Column.to_source_columns resolves a qualifier only through that map, so a consistent renaming of a local name cannot change the owner) and of node identity (eq/hash) being independent of aliases; the end-to-end "
     "invariance under renamings is a bounded native stand-in against a construction-time oracle."
 )
 DESIGN_REF = "DESIGN.md 6/C08, 11"
-LEVEL_NOTE = "partial: scope map and node identity proved; extractor alias handling bounded only"
-TECHNIQUE = "contract-based deductive verification (scope map postcondition, eq/hash contracts) + bounded native metamorphic renaming run with construction-time oracle"
+LEVEL_NOTE = "partial: scope map, reference resolution and node identity proved; extractor alias handling bounded only"
+TECHNIQUE = "contract-based deductive verification (scope map postcondition, step contracts of Column.to_source_columns, eq/hash contracts) + bounded native metamorphic renaming run with construction-time oracle"
